@@ -1246,6 +1246,8 @@ var builderTypeMap = map[string]string{
 	"AFTOperation": "AFTOperationB", "AFTEntry": "AFTEntryB",
 	"aftpb.Afts_LabelEntry_PoppedMplsLabelStackUnion": "PoppedU",
 	"aftpb.Afts_NextHopGroup_NextHopKey": "NhgNhKeyB", "aftpb.Afts_NextHopGroup_NextHop": "NhgNhB",
+	"wpb.BoolValue": "BoolValue", "aftpb.Afts_NextHopKey": "NhKeyB", "aftpb.Afts_NextHop": "NhPayloadB", "aftpb.Afts_NextHop_InterfaceRef": "IfRefB",
+	"aftpb.Afts_NextHop_IpInIp": "IpInIpB", "aftpb.Afts_NextHop_PushedMplsLabelStackUnion": "PushedU",
 	"aftpb.Afts_Ipv4EntryKey": "Ipv4KeyB", "aftpb.Afts_Ipv4Entry": "TopEntryB", "aftpb.Afts_Ipv6EntryKey": "Ipv6KeyB", "aftpb.Afts_Ipv6Entry": "TopEntryB",
 	"aftpb.Afts_LabelEntryKey": "LabelKeyB", "aftpb.Afts_LabelEntry": "LabelEntryB", "aftpb.Afts_NextHopGroupKey": "NhgKeyB", "aftpb.Afts_NextHopGroup": "NhgPayloadB",
 }
@@ -1317,6 +1319,30 @@ var fluentBuilderSpecs = func() []fnSpec {
 		builderProto("nextHopGroupEntry", "n", "NhgKeyB", "OpProto", "flGOpProto"),
 		builderProto("nextHopGroupEntry", "n", "NhgKeyB", "EntryProto", "flGEntryProto"),
 	)
+	hdr := func(goName, lean string) fnSpec {
+		sp := builderMethod("nextHopEntry", "n", "NhKeyB", goName, lean, []param{{goName: "h", goType: "Header", lean: "h", kd: kInt}})
+		// (one generated copy of the table per function that reads it: each module stands alone)
+		sp.constMaps = map[string]string{"encapMap": lean + "_encapMap"}
+		return sp
+	}
+	out = append(out,
+		builderMethod("nextHopEntry", "n", "NhKeyB", "WithIndex", "flNWithIndex", []param{u64("i")}),
+		builderMethod("nextHopEntry", "n", "NhKeyB", "WithNetworkInstance", "flNWithNetworkInstance", []param{str("ni")}),
+		builderMethod("nextHopEntry", "n", "NhKeyB", "WithIPAddress", "flNWithIPAddress", []param{str("addr")}),
+		builderMethod("nextHopEntry", "n", "NhKeyB", "WithInterfaceRef", "flNWithInterfaceRef", []param{str("name")}),
+		builderMethod("nextHopEntry", "n", "NhKeyB", "WithSubinterfaceRef", "flNWithSubinterfaceRef", []param{str("name"), u64("subinterface")}),
+		builderMethod("nextHopEntry", "n", "NhKeyB", "WithMacAddress", "flNWithMacAddress", []param{str("mac")}),
+		builderMethod("nextHopEntry", "n", "NhKeyB", "WithIPinIP", "flNWithIPinIP", []param{str("srcIP"), str("dstIP")}),
+		builderMethod("nextHopEntry", "n", "NhKeyB", "WithNextHopNetworkInstance", "flNWithNextHopNetworkInstance", []param{str("ni")}),
+		builderMethod("nextHopEntry", "n", "NhKeyB", "WithPopTopLabel", "flNWithPopTopLabel", nil),
+		// WithPushedLabelStack assigns through n.pb.NextHop inside its loop, where nothing in the
+		// loop's own text says the pointer is non-nil: outside the subset (tied by the differential runs)
+		hdr("WithDecapsulateHeader", "flNWithDecapsulateHeader"),
+		hdr("WithEncapsulateHeader", "flNWithEncapsulateHeader"),
+		builderMethod("nextHopEntry", "n", "NhKeyB", "WithElectionID", "flNWithElectionID", []param{w64("low"), w64("high")}),
+		builderProto("nextHopEntry", "n", "NhKeyB", "OpProto", "flNOpProto"),
+		builderProto("nextHopEntry", "n", "NhKeyB", "EntryProto", "flNEntryProto"),
+	)
 	// the Get and Flush request builders: the request is the whole state
 	req := func(recvType, schema, goName, lean string, params []param) fnSpec {
 		return fnSpec{
@@ -1334,7 +1360,7 @@ var fluentBuilderSpecs = func() []fnSpec {
 		req("gRIBIFlush", "FlushRequestB", "WithNetworkInstance", "flFlushWithNetworkInstance", []param{str("n")}),
 		req("gRIBIFlush", "FlushRequestB", "WithAllNetworkInstances", "flFlushWithAllNetworkInstances", nil),
 	)
-	for _, c := range [][3]string{{"IPv4Entry", "ipv4Entry", "flNewIPv4Entry"}, {"IPv6Entry", "ipv6Entry", "flNewIPv6Entry"}, {"LabelEntry", "labelEntry", "flNewLabelEntry"}, {"NextHopGroupEntry", "nextHopGroupEntry", "flNewNextHopGroupEntry"}} {
+	for _, c := range [][3]string{{"IPv4Entry", "ipv4Entry", "flNewIPv4Entry"}, {"IPv6Entry", "ipv6Entry", "flNewIPv6Entry"}, {"LabelEntry", "labelEntry", "flNewLabelEntry"}, {"NextHopGroupEntry", "nextHopGroupEntry", "flNewNextHopGroupEntry"}, {"NextHopEntry", "nextHopEntry", "flNewNextHopEntry"}} {
 		out = append(out, fnSpec{file: "fluent/fluent.go", goName: c[0], callAs: "-", leanName: c[2], goRets: "*" + c[1], rets: []string{"ptr:" + c[1]}, typeMap: builderTypeMap})
 	}
 	aft := req("gRIBIGet", "GetRequestG", "WithAFT", "flGetWithAFT", []param{{goName: "a", goType: "AFT", lean: "a", kd: kInt}})
